@@ -163,3 +163,24 @@ Example C02_stepped_slice_example :
   pexpand env0 (decls ++ [SGate [] "h" [] [sl 5 0 (-1)]]) = None /\
   pexpand env0 (decls ++ [SGate [] "h" [] [sl 0 6 0]]) = None.
 Proof. vm_compute. repeat split; reflexivity. Qed.
+
+(* indices that are closed expressions: r[1 + 1], r[2 * 3 - 4], r[true]: folded by the pure evaluator that is proved equal to the
+   model's (ParamProofs.ceval_eval), checked against the register, and emitted as the literal index *)
+Example C02_closed_index_example :
+  let q k := QIdx "q" [IdxList [IExpr (ELit (VInt k))]] in
+  let c k := QIdx "c" [IdxList [IExpr (ELit (VInt k))]] in
+  let ix r e := QIdx r [IdxList [IExpr e]] in
+  let i k := ELit (VInt k) in
+  let decls := [SInclude "stdgates.inc"; SQubitDecl "q" (Some (ELit (VInt 4))); SClassicalDecl (TBit (Some (ELit (VInt 4)))) "c" None] in
+  let p := decls ++ [SGate [] "h" [] [ix "q" (EBin "+" (i 1) (i 1))]; SReset (ix "q" (EBin "-" (EBin "*" (i 2) (i 3)) (i 4)));
+                     SBarrier [ix "q" (ELit (VBool true)); ix "q" (EUn "-" (EUn "-" (i 3)))];
+                     SMeasure (ix "q" (EBin "%" (i 7) (i 4))) (Some (ix "c" (EBin "<<" (i 1) (i 1))))] in
+  pexpand env0 p =
+    Some (decls ++ [SGate [] "h" [] [q 2]; SReset (q 2); SBarrier [q 1]; SBarrier [q 3]; SMeasure (q 3) (Some (c 2))],
+          [[Qr ("q", 2)]; [Qr ("q", 2)]; [Qr ("q", 1); Qr ("q", 3)]; [Qr ("q", 3); Br ("c", 2)]]) /\
+  match unroll_v false [] p, pexpand env0 p with Ok o, Some (e, _) => list_eqb stmt_eqb (o_stmts o) e | _, _ => false end = true /\
+  pexpand env0 (decls ++ [SGate [] "h" [] [ix "q" (EBin "+" (i 2) (i 2))]]) = None /\
+  pexpand env0 (decls ++ [SGate [] "h" [] [ix "q" (EBin "-" (i 1) (i 2))]]) = None /\
+  pexpand env0 (decls ++ [SGate [] "h" [] [ix "q" (EBin "/" (i 1) (i 0))]]) = None /\
+  pexpand env0 (decls ++ [SGate [] "h" [] [ix "q" (EId "n")]]) = None.
+Proof. vm_compute. repeat split; reflexivity. Qed.
